@@ -30,6 +30,7 @@ type C14Case struct {
 	OIDC        bool     `json:"oidc"`               // OIDC_SERVER_URL set for the Get part
 	ROCOverride string   `json:"rocOverride"`        // AetherROCAdmin env override ("" = unset)
 	ROCEmpty    bool     `json:"rocEmpty,omitempty"` // the variable is SET, to the empty string (means: not overridden)
+	Primer      bool     `json:"primer,omitempty"`   // e2e: the same user, then still holding an administrator group, is served first
 }
 
 var adminPool = []string{"AetherROCAdmin", "EnterpriseAdmin", "ops", "net-admins", "Admin"}
@@ -87,6 +88,7 @@ func genC14(rt *rapid.T) C14Case {
 	}
 	c.Form = []string{"joined", "repeated"}[rapid.IntRange(0, 1).Draw(rt, "form")]
 	c.E2E = rapid.IntRange(0, 9).Draw(rt, "e2e") == 0
+	c.Primer = rapid.IntRange(0, 1).Draw(rt, "primer") == 1
 	c.OIDC = rapid.IntRange(0, 1).Draw(rt, "oidc") == 1
 	switch rapid.IntRange(0, 5).Draw(rt, "roc") {
 	case 0:
@@ -229,6 +231,28 @@ func (c C14Case) e2e(x *vstat.Ctx, md metadata.MD, identity bool) error {
 		return err
 	}
 	v := model.Str("v1")
+	before := 0
+	if c.Primer && identity && len(c.AdminGroups) > 0 {
+		// the same user (same name, same e-mail) while still a member of an administrator group: served. A
+		// decision about one request must not be carried over to the next one of that user.
+		x.Class("e2e:same-user-served-as-administrator-first")
+		pc := c
+		pc.Groups, pc.HasGroups, pc.Form = []string{c.AdminGroups[0]}, true, "joined"
+		pspec := SetSpec{Ops: []model.Op{{Kind: "update", Target: "t2", Path: model.Parse("/a/b"), Val: &v}}}
+		pcall, err := w.StartSet("primer", pspec.Build(), pc.md(), nil)
+		if err != nil {
+			return err
+		}
+		if err := w.S.Run(); err != nil {
+			return err
+		}
+		w.AwaitCalls(10e9)
+		if !pcall.Created {
+			return vstat.Violf("a Set by a member of the administrator group %q (ADMINGROUPS %q) was refused with %v", c.AdminGroups[0], c.AdminGroups, pcall.Err)
+		}
+		ptxs, _ := w.St.Tx.List(context.Background())
+		before = len(ptxs)
+	}
 	spec := SetSpec{Ops: []model.Op{{Kind: "update", Target: "t1", Path: model.Parse("/a/b"), Val: &v}}}
 	call, err := w.StartSet("set", spec.Build(), md, nil)
 	if err != nil {
@@ -244,7 +268,7 @@ func (c C14Case) e2e(x *vstat.Ctx, md metadata.MD, identity bool) error {
 	txs, _ := w.St.Tx.List(context.Background())
 	if identity {
 		if !c.entitled() {
-			if call.Created || len(txs) != 0 {
+			if call.Created || len(txs) != before {
 				return vstat.Violf("a Set by a caller without an administrator group (groups %q, ADMINGROUPS %q) was logged", c.Groups, c.AdminGroups)
 			}
 			if Code(call.Err) != codes.Unauthenticated && Code(call.Err) != codes.PermissionDenied {
